@@ -171,3 +171,24 @@ for _k, _fs in HELPER_TEXT.items():
 for _k, _fs in SHAPES.items():
     PROPS[_k]['facts'] = list(PROPS[_k].get('facts', [])) + ['skel_' + _f for _f in _fs]
     PROPS[_k]['explanation'] += '; shape obligations: ' + ', '.join('Shape_' + _f for _f in _fs)
+
+# functions translated from the Go source by tools/go2lean on every run (lean/Oidc/Generated/Code.lean) and proved equal to the
+# model in lean/Oidc/Proofs/Code*.lean; the property files state their theorems about the translated code as code_*
+TRANSLATED = {
+    'C01': ['determineExcludedURL', 'isUserAuthenticated', 'VerifyJWTSignatureAndClaims'],
+    'C02': ['JWT.Verify', 'verifyIssuer', 'verifyAudience', 'verifyExpiration', 'verifyIssuedAt', 'verifyNotBefore', 'verifyTimeConstraint', 'VerifyJWTSignatureAndClaims'],
+    'C04': ['isUserAuthenticated'],
+    'C06': ['isAllowedDomain', 'extractGroupsAndRoles'],
+    'C07': ['splitIntoChunks'],
+    'C08': ['isUserAuthenticated'],
+    'C11': ['determineScheme', 'determineHost'],
+    'C14': ['VerifyToken', 'performPreVerificationChecks', 'cacheVerifiedToken', 'RevokeToken'],
+    'C15': ['isLocalRedirectTarget', 'buildFullURL', 'determineScheme', 'determineHost'],
+    'C18': ['splitIntoChunks'],
+    'C19': ['VerifyToken', 'performPreVerificationChecks'],
+}
+for _k, _fs in TRANSLATED.items():
+    PROPS[_k]['explanation'] += '; translated from the source on every run (tools/go2lean) and proved equal to the model: ' + ', '.join(_fs)
+    PROPS[_k]['technique'] = ('Lean 4 theorems about an executable model; the decision functions ' + ', '.join(_fs) + ' are translated from the Go source into Lean on every run and '
+                              'proved equal to the model (refinement theorems re-checked each run); regenerated facts and program-text obligations for the rest; '
+                              'differential correspondence of the real code with the Lean driver; reference oracles for the failing-input search')
